@@ -264,9 +264,20 @@ class ClassTable:
         if not fn.args.args:
             raise Incomplete(site(fn), 'decorator without parameter')
         cls_name = fn.args.args[0].arg
+        const_fns: dict[str, bool] = {}  # local functions / lambdas that return a boolean constant
         for stmt in fn.body:
             if isinstance(stmt, ast.Expr) and isinstance(stmt.value, ast.Constant):
                 continue  # docstring
+            if isinstance(stmt, ast.FunctionDef):
+                body = [x for x in stmt.body if not (isinstance(x, ast.Expr) and isinstance(x.value, ast.Constant))]
+                if len(body) == 1 and isinstance(body[0], ast.Return) and isinstance(body[0].value, ast.Constant) and isinstance(body[0].value.value, bool):
+                    const_fns[stmt.name] = body[0].value.value
+                    continue
+                raise Incomplete(site(stmt), f'local function of decorator {fn.name} is not a constant tag')
+            if (isinstance(stmt, ast.Assign) and len(stmt.targets) == 1 and isinstance(stmt.targets[0], ast.Name) and isinstance(stmt.value, ast.Lambda)
+                    and isinstance(stmt.value.body, ast.Constant) and isinstance(stmt.value.body.value, bool)):
+                const_fns[stmt.targets[0].id] = stmt.value.body.value
+                continue
             if isinstance(stmt, ast.Return):
                 if isinstance(stmt.value, ast.Name) and stmt.value.id == cls_name:
                     continue
@@ -288,12 +299,13 @@ class ClassTable:
                         and isinstance(args[0], ast.Name)
                         and args[0].id == cls_name
                         and len(call.args) == 1
-                        and isinstance(call.args[0], ast.Lambda)
-                        and isinstance(call.args[0].body, ast.Constant)
-                        and isinstance(call.args[0].body.value, bool)
+                        and (
+                            (isinstance(call.args[0], ast.Lambda) and isinstance(call.args[0].body, ast.Constant) and isinstance(call.args[0].body.value, bool))
+                            or (isinstance(call.args[0], ast.Name) and call.args[0].id in const_fns)
+                        )
                     ):
                         tag = tagq.split('.')[-1]
-                        info.tag_regs[tag] = call.args[0].body.value
+                        info.tag_regs[tag] = call.args[0].body.value if isinstance(call.args[0], ast.Lambda) else const_fns[call.args[0].id]
                         info.tag_prov[tag] = f'{fn.name} ({site(stmt)}) via {origin}'
                         continue
                     raise Incomplete(site(stmt), f'unrecognised registration in decorator {fn.name}')
